@@ -71,6 +71,11 @@ func (c16) Run(c *run.Ctx, phase, idx int) {
 		case t == 0:
 			body = r.Bytes(r.Intn(24))
 			class = "raw"
+			if k >= 1 && k <= 3 {
+				// "carrying the frame's bytes": all of them, also of a big frame
+				body = r.Bytes([]int{65535, 65536, 65537, 200000 + r.Intn(1000)}[(k+idx)%4])
+				class = "raw-large"
+			}
 		case k == 0 && (t == ref.TPingReq || t == ref.TPingResp || t == ref.TDisconnect || t == ref.TAuth):
 			class = "remaining-length-0"
 		default:
@@ -140,7 +145,7 @@ func (c16) Run(c *run.Ctx, phase, idx int) {
 		switch p := res.Pkt.(type) {
 		case *mq.Undefined:
 			if !bytes.Equal(p.Data(), body) {
-				c.Violation("C16/undefined-data", fmt.Sprintf("Undefined.Data() = % x, the frame body is % x", p.Data(), body), det())
+				c.Violation("C16/undefined-data", fmt.Sprintf("Undefined.Data() has %d bytes (%s), the frame body has %d (%s)", len(p.Data()), hexClip(p.Data(), 24), len(body), hexClip(body, 24)), det())
 			}
 			// "the decoded packet keeps the lower four bits": the same body
 			// behind another flag nibble must give a packet that can be told
